@@ -40,6 +40,10 @@ func RunFiles(bytecode *bytecode.Bytecode, filenames []string, mode ReplaceMode,
 					panic(err)
 				}
 				for _, entry := range entries {
+					// only the files directly inside are searched: not a sub-directory, not a link to one
+					if entryInfo, err := os.Stat(fixedFilename + entry.Name()); err == nil && entryInfo.IsDir() {
+						continue
+					}
 					actualFiles = append(actualFiles, fixedFilename+entry.Name())
 				}
 			} else {
